@@ -321,13 +321,23 @@ class WSStream:
                 self.state = ASGIWebsocketState.HTTPCLOSED
                 await self._send_error_response(403)
             elif message["type"] == "websocket.close" and self.state == ASGIWebsocketState.CONNECTED:
-                self.state = ASGIWebsocketState.CLOSED
-                await self._send_wsproto_event(
-                    CloseConnection(
-                        code=int(message.get("code", CloseReason.NORMAL_CLOSURE)),
-                        reason=message.get("reason"),
+                # The close frame is built before the state changes, a
+                # message that cannot be turned into a frame (the error
+                # is raised to the application) must leave the
+                # connection open so that it is still closed with 1011
+                # should the application then exit.
+                try:
+                    data = self.connection.send(
+                        CloseConnection(
+                            code=int(message.get("code", CloseReason.NORMAL_CLOSURE)),
+                            reason=message.get("reason"),
+                        )
                     )
-                )
+                except LocalProtocolError:
+                    data = None
+                self.state = ASGIWebsocketState.CLOSED
+                if data is not None:
+                    await self.send(Data(stream_id=self.stream_id, data=data))
                 await self.send(EndData(stream_id=self.stream_id))
             else:
                 raise UnexpectedMessageError(self.state, message["type"])
